@@ -2,7 +2,7 @@
    [all_msgs], [nas_types], the dispatch tables are regenerated from /repo on every run;
    [decode_def] is the meaning of the generator template (Codec/Sem.v), tied to the Go code by
    the canonical-program check below and by the correspondence run. *)
-From NV Require Import Lib.Base Codec.Lang Codec.Def Codec.Sem Codec.Total Codec.Dispatch Codec.DispatchProofs Codec.GenDefs Codec.Final
+From NV Require Import Lib.Base Codec.Lang Codec.Def Codec.Sem Codec.Total Codec.Cost Codec.Dispatch Codec.DispatchProofs Codec.GenDefs Codec.Final
   Gen.GenMsgs Gen.GenTypes Gen.GenDispatch.
 From Coq Require Import String.
 Open Scope N_scope.
@@ -43,9 +43,39 @@ Example C01_unchecked_slice_panics :
   decode_def [sd] [3; 1; 2; 3] = Panic /\ wf_defb [sd] = false.
 Proof. split; reflexivity. Qed.
 
+(* ---- bounded work and allocation (cost model: Codec/Cost.v) ----
+   for ANY definition whose slots pass the cost check and ANY octet string: executed statements
+   are linear in the input, allocated octets are linear in the input plus one maximum-size
+   element (a 16-bit length can request 65535 octets twice before the short read is noticed) *)
+Theorem C01_decode_cost_bound : forall d bs, cost_defb d = true -> bytes_ok bs ->
+  fst (decode_cost d bs) <= 4 * N.of_nat (List.length d) + 8 * N.of_nat (List.length bs) + 1 /\
+  snd (decode_cost d bs) <= (max_struct d + 3) * N.of_nat (List.length bs) + 2 * BIG + 2 * max_struct d.
+Proof. exact decode_cost_bound. Qed.
+
+(* every definition of the current source passes the cost check *)
+Theorem C01_all_cost : forallb (fun p => cost_defb (snd p)) defs = true.
+Proof. exact all_cost. Qed.
+
+(* hence, for the 45 message decoders of the current source ([worst_struct] is recomputed from it) *)
+Theorem C01_message_decode_cost : forall n d bs, find_def n = Some d -> bytes_ok bs ->
+  fst (decode_cost d bs) <= 4 * N.of_nat (List.length d) + 8 * N.of_nat (List.length bs) + 1 /\
+  snd (decode_cost d bs) <= (worst_struct + 3) * N.of_nat (List.length bs) + 2 * BIG + 2 * worst_struct.
+Proof. exact message_decode_cost. Qed.
+
+(* non-vacuity: the one-maximum-element term is reached -- 3 octets of input make a Buffer-backed
+   element with a 2-octet length request 65535 octets twice *)
+Example C01_big_request_is_real :
+  let sd := mkslot "X"%string true 0 true LNone VBuf false (ShKnown false 2 TBBuffer) CtorNone in
+  cost_defb [sd] = true /\ snd (decode_cost [sd] [255; 255; 0]) = 2 + 65535 + 65535.
+Proof. split; vm_compute; reflexivity. Qed.
+
+
 Print Assumptions C01_all_canonical.
 Print Assumptions C01_all_wf.
 Print Assumptions C01_decode_total.
 Print Assumptions C01_message_decoders_total.
 Print Assumptions C01_part_decode_total.
 Print Assumptions C01_plain_decode_total.
+Print Assumptions C01_decode_cost_bound.
+Print Assumptions C01_all_cost.
+Print Assumptions C01_message_decode_cost.
